@@ -706,6 +706,71 @@ func genC06(ctx *Ctx) []Case {
 		add("store", true, xt.N(xt.LI(12), ops))
 	}
 
+	// --- the 65535 limit is in BYTES: text made of 2-, 3-, 4-byte UTF-8 sequences and of invalid UTF-8
+	// bytes, with byte lengths around the limit, in every family that carries a length-prefixed text
+	// (a guard counting code points instead of bytes lets 40000 x "e-acute" = 80000 bytes through)
+	{
+		units := [][]byte{{0xc3, 0xa9}, {0xe4, 0xb8, 0x96}, {0xf0, 0x9f, 0x98, 0x80}, {0x80, 0xbf, 0x81}, {0xff}}
+		mb := func(kind, n int) []byte {
+			u := units[kind]
+			b := c06Rep('a', n%len(u))
+			return append(b, bytes.Repeat(u, n/len(u))...)
+		}
+		plainCol := func(name []byte, top *xt.T) *xt.T {
+			return xt.N(xt.Bytes(name), xt.L(0), xt.N(), xt.N(), xt.N(), xt.N(), xt.N(), xt.N(), xt.L(0), xt.L(0), xt.L(0), top)
+		}
+		families := []func(t []byte) *xt.T{
+			func(t []byte) *xt.T { g := base(); g.name = t; return xt.N(xt.LI(5), g.tree(), xt.N()) },
+			func(t []byte) *xt.T { g := base(); g.email = t; return xt.N(xt.LI(5), g.tree(), xt.N()) },
+			func(t []byte) *xt.T {
+				g := base()
+				g.msg, g.parents = t, [][]byte{c06Sum16(ctx)}
+				return xt.N(xt.LI(5), g.tree(), xt.N())
+			},
+			func(t []byte) *xt.T { // profile column name
+				return xt.N(xt.LI(8), xt.N(xt.L(1), xt.L(3), xt.N(plainCol([]byte("b"), xt.N()), plainCol(t, xt.N()))), xt.N())
+			},
+			func(t []byte) *xt.T { // profile top value
+				top := xt.N(xt.N(xt.N(xt.Bytes([]byte("ok")), xt.L(5)), xt.N(xt.Bytes(t), xt.L(2)), xt.N(xt.Bytes([]byte("after")), xt.L(1))))
+				return xt.N(xt.LI(8), xt.N(xt.L(1), xt.L(3), xt.N(plainCol([]byte("a"), top))), xt.N())
+			},
+			func(t []byte) *xt.T { // StrList cell
+				return xt.N(xt.LI(1), c06CellsT([][]byte{[]byte("k"), t, nil}), xt.N())
+			},
+			func(t []byte) *xt.T { // table column name
+				g := &c06GenTable{cols: [][]byte{[]byte("id"), t}, pk: []uint32{0}, rows: 1,
+					blocks: [][]byte{c06Sum16(ctx)}, indices: [][]byte{c06Sum16(ctx)}}
+				return xt.N(xt.LI(6), g.tree(), xt.N())
+			},
+			func(t []byte) *xt.T { // cell of a block row
+				return xt.N(xt.LI(2), xt.List(c06CellsT, [][][]byte{{[]byte("a")}, {[]byte("b"), t}}), xt.N())
+			},
+		}
+		okLens := []int{65534, 65535}
+		overLens := []int{65536, 65538, 70000, 80000}
+		emit := func(f, kind, n int) {
+			tag := "multibyte-ok"
+			if n > c06Max {
+				tag = "multibyte-over"
+			}
+			add(tag, true, families[f](mb(kind, n)))
+			ctx.Count(fmt.Sprintf("multibyte_unit_%d", kind))
+		}
+		for f := range families {
+			for kind := range units {
+				if ctx.Thorough() {
+					for _, n := range append(append([]int{}, okLens...), overLens...) {
+						emit(f, kind, n)
+					}
+				} else {
+					// quick: one length at or below and one above the limit per (family, unit), rotating
+					emit(f, kind, okLens[(f+kind)%2])
+					emit(f, kind, overLens[(f+kind)%4])
+				}
+			}
+		}
+	}
+
 	// --- counts around the decoders' pre-allocation cap (maxPrealloc = 1024): every count-prefixed
 	// reader that pre-allocates min(count, 1024) elements must still READ all of them
 	for _, n := range []int{1023, 1024, 1025, 3000} {
